@@ -35,6 +35,10 @@ NoRef == [q |-> "none", n |-> ""]
 BaseRef(n) == [q |-> "base", n |-> n]
 Bare(n) == [q |-> "", n |-> n]
 Qual(q, n) == [q |-> q, n |-> n]
+\* list<X>: eq / n name the element the way q / n name a type ("" bare, "base", or an include); every mention of a
+\* container type in the source is a TypeSpec object of its own
+ListRef(eq, n) == [q |-> "list", n |-> n, eq |-> eq]
+ElemRef(ref) == [q |-> ref.eq, n |-> ref.n]
 
 CNone == [k |-> "none", q |-> "", n |-> ""]
 CInt  == [k |-> "int",  q |-> "", n |-> ""]
@@ -46,6 +50,7 @@ CRef(q, n) == [k |-> "ref", q |-> q, n |-> n]    \* unresolved constantReference
 CConst(key) == [k |-> "const", q |-> key[1], n |-> key[2]]    \* ConstReference{Target}
 CItem(key)  == [k |-> "item",  q |-> key[1], n |-> key[2]]    \* EnumItemReference{Enum}
 CStruct(fv) == [k |-> "struct", q |-> "", n |-> "", fv |-> fv] \* ConstantStruct, fv = value of field f
+CList(ev)   == [k |-> "list", q |-> "", n |-> "", fv |-> ev]   \* a list literal with one item [ev] (before and after linking)
 
 \* type handles: what a linked TypeSpec pointer denotes.  occ models pointer
 \* identity of base type occurrences (each "i32" in the source is its own object).
@@ -53,6 +58,7 @@ HNil == [k |-> "nil", key |-> <<"", "">>, n |-> "", occ |-> ""]
 HUnlinked == [k |-> "unlinked", key |-> <<"", "">>, n |-> "", occ |-> ""]
 HBase(n, occ) == [k |-> "base", key |-> <<"", "">>, n |-> n, occ |-> occ]
 HEnt(key) == [k |-> "ent", key |-> key, n |-> "", occ |-> ""]
+HList(eh, occ) == [k |-> "list", key |-> <<"", "">>, n |-> "", occ |-> occ, e |-> eh]     \* ListSpec{ValueSpec: eh}
 
 ---------------------------------------------------------------------------
 (* Program accessors *)
@@ -121,6 +127,7 @@ RootOf(prog, s, h) ==
 
 SameObject(h1, h2) == \/ h1.k = "ent" /\ h2.k = "ent" /\ h1.key = h2.key
                       \/ h1.k = "base" /\ h2.k = "base" /\ h1.occ = h2.occ
+                      \/ h1.k = "list" /\ h2.k = "list" /\ h1.occ = h2.occ
 
 ---------------------------------------------------------------------------
 RECURSIVE LinkTRef(_, _, _, _, _, _), LinkType(_, _, _, _), LinkCVal(_, _, _, _, _, _),
@@ -129,6 +136,9 @@ RECURSIVE LinkTRef(_, _, _, _, _, _), LinkType(_, _, _, _), LinkCVal(_, _, _, _,
 \* typeSpecReference.Link / base type Link.  m = scope (module), occ = identity of a base occurrence
 LinkTRef(prog, s, m, ref, occ, d) ==
   IF ref.q = "base" THEN R(s, HBase(ref.n, occ))
+  ELSE IF ref.q = "list" THEN                          \* ListSpec.Link links the element type
+       LET r == LinkTRef(prog, s, m, ElemRef(ref), occ \o "/e", d + 1) IN
+       IF Bad(r.s) THEN R(r.s, HNil) ELSE R(r.s, HList(r.h, occ))
   ELSE IF ref.q = "" THEN
          IF TDefd(prog, Key(m, ref.n))
          THEN R(LinkType(prog, s, Key(m, ref.n), d + 1), HEnt(Key(m, ref.n)))
@@ -194,6 +204,11 @@ LinkCVal(prog, s0, m, v, h, d) ==
                           r == LinkCVal(prog, s1, m, fval, fh, d + 1) IN
                       IF Bad(r.s) THEN V(r.s, v)
                       ELSE V(IF usesDefault THEN [r.s EXCEPT !.fing[rt.key] = s.fing[rt.key]] ELSE r.s, CStruct(r.v))
+    [] v.k = "list" ->
+         \* ConstantList.Link: every item against the element type; a list is not a value of any other type
+         IF rt.k # "list" THEN V(Fail(s, "cast"), v)
+         ELSE LET r == LinkCVal(prog, s, m, v.fv, rt.e, d + 1) IN
+              IF Bad(r.s) THEN V(r.s, v) ELSE V(r.s, CList(r.v))
     [] v.k = "ref" ->
          \* constantReference.Link: the whole name as a local constant first
          IF v.q = "" THEN
@@ -266,8 +281,9 @@ LinkSvc(prog, s0, key, d) ==
 (* findTypeCycles for a typedef: follow linked targets; structs break the chain *)
 TargetKey(prog, key) ==      \* the entity a typedef's target denotes, or <<"","">> for a base type
   LET ref == prog.ty[key].tgt m == ModOf(key) IN
-  IF ref.q = "base" THEN <<"", "">> ELSE IF ref.q = "" THEN Key(m, ref.n)
-  ELSE IF TLocalDot(prog, m, ref) THEN Key(m, Dot(ref.q, ref.n)) ELSE Key(ref.q, ref.n)
+  LET r == IF ref.q = "list" THEN ElemRef(ref) ELSE ref IN          \* the cycle walk goes into containers
+  IF r.q = "base" THEN <<"", "">> ELSE IF r.q = "" THEN Key(m, r.n)
+  ELSE IF TLocalDot(prog, m, r) THEN Key(m, Dot(r.q, r.n)) ELSE Key(r.q, r.n)
 
 RECURSIVE TdChainCycles(_, _, _)
 TdChainCycles(prog, key, seen) ==
@@ -315,11 +331,13 @@ Compile(prog, order) == CycleAll(prog, RunOrder(prog, InitStore(prog), order), L
 ---------------------------------------------------------------------------
 (* Denote: the order-free meaning of a program (Thrift scoping), against    *)
 (* which every linking order is judged.                                     *)
+RECURSIVE RefKeyOK(_, _, _)
 RefKeyOK(prog, m, ref) ==
   \/ ref.q \in {"base", "none"}
+  \/ ref.q = "list" /\ RefKeyOK(prog, m, ElemRef(ref))
   \/ ref.q = "" /\ TDefd(prog, Key(m, ref.n))
-  \/ TLocalDot(prog, m, ref)
-  \/ ref.q \notin {"", "base", "none"} /\ ref.q \in prog.inc[m] /\ TDefd(prog, Key(ref.q, ref.n))
+  \/ ref.q # "list" /\ TLocalDot(prog, m, ref)
+  \/ ref.q \notin {"", "base", "none", "list"} /\ ref.q \in prog.inc[m] /\ TDefd(prog, Key(ref.q, ref.n))
 \* a local definition whose name is the whole dotted text hides the included one
 RefKey(prog, m, ref) == IF ref.q = "" THEN Key(m, ref.n)
                         ELSE IF TLocalDot(prog, m, ref) THEN Key(m, Dot(ref.q, ref.n)) ELSE Key(ref.q, ref.n)
@@ -328,6 +346,8 @@ RefKey(prog, m, ref) == IF ref.q = "" THEN Key(m, ref.n)
 RECURSIVE TrueRootRef(_, _, _, _)
 TrueRootRef(prog, m, ref, fuel) ==
   IF ref.q = "base" THEN [k |-> "base", key |-> <<"", "">>, n |-> ref.n]
+  ELSE IF ref.q = "list" THEN [k |-> "list", key |-> <<"", "">>, n |-> "", e |-> IF fuel = 0 THEN [k |-> "nil", key |-> <<"", "">>, n |-> ""]
+                                                                                 ELSE TrueRootRef(prog, m, ElemRef(ref), fuel - 1)]
   ELSE LET key == RefKey(prog, m, ref) IN
        IF fuel = 0 \/ ~TDefd(prog, key) THEN [k |-> "nil", key |-> <<"", "">>, n |-> ""]
        ELSE IF prog.ty[key].k = "td" THEN TrueRootRef(prog, ModOf(key), prog.ty[key].tgt, fuel - 1)
@@ -344,8 +364,11 @@ KStr == <<"str", <<"", "">> >>
 IsEnumRoot(prog, rt)   == rt.k = "ent" /\ prog.ty[rt.key].k = "en"
 IsStructRoot(prog, rt) == rt.k = "ent" /\ prog.ty[rt.key].k = "st"
 
+RECURSIVE Recast(_, _, _)
 Recast(prog, kd, rt) ==
-  CASE kd[1] = "int"    -> IF rt.k = "base" /\ rt.n = "i32" THEN KInt
+  CASE kd[1] = "list"   -> IF rt.k # "list" THEN KBad
+                           ELSE LET ek == Recast(prog, kd[2], rt.e) IN IF ek = KBad THEN KBad ELSE <<"list", ek>>
+    [] kd[1] = "int"    -> IF rt.k = "base" /\ rt.n = "i32" THEN KInt
                            ELSE IF IsEnumRoot(prog, rt) THEN <<"item", rt.key>> ELSE KBad
     [] kd[1] = "str"    -> IF rt.k = "base" /\ rt.n = "string" THEN KStr ELSE KBad
     [] kd[1] = "item"   -> IF rt.k = "ent" /\ rt.key = kd[2] THEN kd ELSE KBad
@@ -366,6 +389,9 @@ DKind(prog, m, v, rt, fuel) ==
                         ELSE IF sdef.dfl.k = "none" THEN KInt          \* unset optional field: fine
                         ELSE DKind(prog, sm, sdef.dfl, frt, fuel - 1)  \* the default belongs to the struct's file
               IN IF fk = KBad THEN KBad ELSE <<"struct", rt.key>>
+    [] v.k = "list" ->
+         IF rt.k # "list" THEN KBad
+         ELSE LET ek == DKind(prog, m, v.fv, rt.e, fuel - 1) IN IF ek = KBad THEN KBad ELSE <<"list", ek>>
     [] v.k = "ref"  ->
          IF v.q = "" THEN
               IF ~CDefd(prog, Key(m, v.n)) THEN KBad
@@ -422,6 +448,10 @@ Denote(prog) ==
 
 \* projection of a store root handle for comparison with Denote
 ProjRoot(h) == [k |-> h.k, key |-> h.key, n |-> h.n]
+\* a list root is compared together with the root of its element type
+RECURSIVE ProjRootS(_, _, _)
+ProjRootS(prog, s, h) == IF h.k = "list" THEN [k |-> "list", key |-> <<"", "">>, n |-> "", e |-> ProjRootS(prog, s, RootOf(prog, s, h.e))]
+                         ELSE ProjRoot(h)
 
 ---------------------------------------------------------------------------
 (* All final stores over every schedule of compiler.link (the state space of *)
@@ -447,8 +477,10 @@ AllFinals(prog) == Finals(prog, InitStore(prog), WalkOrderOf(prog), "types", Ste
 (* graph has a cycle are the ones where a Link call can reach an entity whose  *)
 (* own Link is still on the stack (the linkOnce early return), i.e. where the  *)
 (* result can depend on the order; the quick tier always replays them.         *)
-RefTargets(prog, m, ref) == IF ref.q \in {"base", "none"} THEN {} ELSE {<<"t", RefKey(prog, m, ref)>>}
-CValTargets(prog, m, v) == IF v.k # "ref" THEN {}
+RefTargets(prog, m, ref) == LET r == IF ref.q = "list" THEN ElemRef(ref) ELSE ref IN
+                            IF r.q \in {"base", "none"} THEN {} ELSE {<<"t", RefKey(prog, m, r)>>}
+RECURSIVE CValTargets(_, _, _)
+CValTargets(prog, m, v) == IF v.k = "list" THEN CValTargets(prog, m, v.fv) ELSE IF v.k # "ref" THEN {}
                      ELSE IF v.q = "" THEN {<<"c", Key(m, v.n)>>}
                      ELSE IF CLocalDot(prog, m, v.q, v.n) THEN {<<"c", Key(m, Dot(v.q, v.n))>>}
                      ELSE {<<"c", Key(v.q, v.n)>>, <<"t", Key(m, v.q)>>}
